@@ -634,3 +634,46 @@ def variational_condition(S):
     v = kw["v"]
     S.forall("test-functions-evaluated-at-the-same-row", v, lambda q: zreal(v.val.at(q)) == tf.V(*(w.sample_row(0, q[0])["x"] + w.sample_row(0, q[0])["t"])))
     S.ensure("coordinates-are-tracked-leaves", all(kw[nm].requires_grad for nm in ("x", "t")))
+
+
+@scenario("C14", [C + "PeriodicCondition._move_static_data", C + "SingleModuleCondition._move_static_data", C + "IntegroPINNCondition._move_static_data", C + "HPM_EquationLoss_at_Sampler._move_static_data"], configs=["periodic", "single", "integro", "hpm-at-sampler"], bounded=BOUND + "; static sampler, device 'cpu'")
+def moving_static_data_to_the_training_device_changes_no_data(S):
+    """Solver.on_train_start calls condition._move_static_data(device) once before training: afterwards every
+    pre-evaluated data function still holds ITS OWN data (the left and the right side of a periodic condition each their
+    own), so the loss of a condition on a static sampler is the same before and after being handed to a Solver"""
+    I = S.I
+    k = S.cfg
+    n = S.int("n", 1)
+    if k == "periodic":
+        lo, hi = S.real("lo"), S.real("hi")
+        S.assume(lo.t < hi.t)
+        interval = S.new("torchphysics.problem.domains.domain1D.interval.Interval", S.new(RN, "t", 1), lo, hi)
+        smp = AbstractSampler(S, "smp", S.new(RN, "x", 2), n)
+        model = AbstractModel(S, "net", mul(S, S.new(RN, "x", 2), S.new(RN, "t", 1)), S.new(RN, "u", 1))
+        fdata = RowFn("fdata", ["t", "x"], 1, {"t": 1, "x": 2})
+        res = RowFn("res", ["u_left", "u_right", "f_left", "f_right"], 1, {"u_left": 1, "u_right": 1, "f_left": 1, "f_right": 1})
+        cond = S.new(C + "PeriodicCondition", model.obj, interval, res, non_periodic_sampler=S.method(smp.obj, "make_static"), data_functions={"f": fdata})
+        stores = ["left_data_functions", "right_data_functions"]
+    else:
+        w = World(S, static=True)
+        cls = {"single": "SingleModuleCondition", "integro": "IntegroPINNCondition", "hpm-at-sampler": "HPM_EquationLoss_at_Sampler"}[k]
+        res = RowFn("res", ["x", "t", "f"], 2, {"x": 2, "t": 1, "f": 1})
+        if k == "single":
+            cond = S.new(C + cls, w.model.obj, w.sobj, res, w.E, data_functions={"f": w.fdata})
+        elif k == "integro":
+            cond = S.new(C + cls, w.model.obj, w.sobj, res, AbstractSampler(S, "ismp", S.new(RN, "x", 2), S.int("m", 1)).obj, data_functions={"f": w.fdata})
+        else:
+            cond = S.new(C + cls, w.model.obj, w.sobj, res, data_functions={"f": w.fdata})
+        stores = ["data_functions"]
+    before = {st: {key: (uf, uf.f["fun"], uf.f["fun"].val if isinstance(uf.f["fun"], Tensor) else None) for key, uf in S.getattr(cond, st).items()} for st in stores}
+    S.ensure("data-were-pre-evaluated-for-the-static-sampler", all(isinstance(v[1], Tensor) for st in stores for v in before[st].values()))
+    S.method(cond, "_move_static_data", "cpu")
+    for st in stores:
+        now = S.getattr(cond, st)
+        S.ensure(f"{st}:same-keys-same-wrappers", list(now.keys()) == list(before[st].keys()) and all(now[key] is before[st][key][0] for key in now))
+        for key, (uf, cell, val) in before[st].items():
+            cur = now[key].f["fun"]
+            okc = isinstance(cur, Tensor) and val is not None and cur.val.rank == val.rank
+            S.ensure(f"{st}[{key}]:still-a-tensor-of-the-same-rank", okc)
+            if okc:
+                S.forall(f"{st}[{key}]:holds-its-own-data-as-before", cur, lambda q, cur=cur, val=val: zreal(cur.val.at(q)) == zreal(val.at(q)))
